@@ -1,4 +1,12 @@
 package config
 
+import "github.com/bio-routing/bio-rd/routingtable/filter"
+
 // VerifLoadBGP runs the inheritance / defaulting step of the configuration loader (overlay only)
 func VerifLoadBGP(b *BGP, localAS uint32) error { return b.load(localAS, &PolicyOptions{}) }
+
+// VerifLoadBGPWith is VerifLoadBGP with already converted policy statements, so that neighbor-level import / export
+// names resolve (overlay only)
+func VerifLoadBGPWith(b *BGP, localAS uint32, fs []*filter.Filter) error {
+	return b.load(localAS, &PolicyOptions{PolicyStatementsFilter: fs})
+}
